@@ -125,18 +125,7 @@ def checked_stores(ctx, L):
                     L.ok('C10a.checked-store', key, f.site(node), 'removes / permutes already checked values')
                     continue
                 v = ws(unparse(args[-1]))
-                checked_names = set()
-                for s_ in f.walk():
-                    if isinstance(s_, ast.Assign) and isinstance(s_.targets[0], ast.Name) and ws(unparse(s_.value)) in (
-                            'self._TYPE._check(value)', '[self._TYPE._check(value) for value in values]',
-                            'list(map(self._TYPE._check, values))'):
-                        checked_names.add(s_.targets[0].id)
-                ok = v in ('map(self._TYPE._check, values)', 'new_element', 'new_elements') or v in checked_names
-                if v == 'new_elements':
-                    ok = any(isinstance(s_, ast.Call) and ws(unparse(s_)) == 'new_elements.append(new_element)' for s_ in f.walk())
-                if v in ('new_element', 'new_elements'):
-                    ok = ok and any(isinstance(s, ast.Assign) and ws(unparse(s)) in ('new_element = self._TYPE()', 'new_element = composite_cls()')
-                             for s in f.walk())
+                ok = sanitised(f, args[-1], 0)
                 L.check(ok, 'C10a.checked-store', key, f.site(node),
                         'an element enters the array\'s _values that is neither self._TYPE._check(v) nor a fresh self._TYPE(): %s' % v,
                         unparse(node))
@@ -150,6 +139,79 @@ def checked_stores(ctx, L):
 
 
 # ------------------------------------------------------------------------------------------------ (b)
+def _rebound_before(f, use):
+    """A parameter is used after an assignment to it that dominates the use (same or enclosing block, earlier statement)."""
+    m = f.module
+    node = use
+    while node is not None and node is not f.node:
+        par = m.parent(node)
+        for field in ('body', 'orelse', 'finalbody'):
+            blk = getattr(par, field, None)
+            if isinstance(blk, list) and any(x is node for x in blk):
+                for st in blk[:[i for i, x in enumerate(blk) if x is node][0]]:
+                    if isinstance(st, ast.Assign) and any(isinstance(t, ast.Name) and t.id == use.id for t in st.targets):
+                        return True
+        node = par
+    return False
+
+
+def sanitised(f, e, depth):
+    """Is every value this expression can stand for either the result of self._TYPE._check(...) or a fresh self._TYPE() instance?
+    Names are followed through all their bindings in the function (any spelling of the local)."""
+    if depth > 5:
+        return False
+    t = ws(unparse(e))
+    if isinstance(e, ast.Call):
+        fn = ws(unparse(e.func))
+        if fn == 'self._TYPE._check' and len(e.args) == 1:
+            return True
+        if fn == 'self._TYPE' and not e.args:
+            return True
+        if fn == 'map' and len(e.args) == 2 and ws(unparse(e.args[0])) == 'self._TYPE._check':
+            return True
+        if fn in ('list', 'tuple') and len(e.args) == 1:
+            return sanitised(f, e.args[0], depth + 1)
+        if isinstance(e.func, ast.Name) and not e.args:
+            # composite_cls() with composite_cls = self._TYPE
+            defs = [a.value for a in f.walk() if isinstance(a, ast.Assign) and len(a.targets) == 1 and isinstance(a.targets[0], ast.Name)
+                    and a.targets[0].id == e.func.id]
+            return bool(defs) and all(ws(unparse(d)) == 'self._TYPE' for d in defs)
+        return False
+    if isinstance(e, (ast.ListComp, ast.GeneratorExp)):
+        return sanitised(f, e.elt, depth + 1)
+    if isinstance(e, ast.Name):
+        if e.id in f.params and not _rebound_before(f, e):
+            return False        # the caller's value as passed in
+        defs = []
+        for a in f.walk():
+            if isinstance(a, ast.Assign):
+                for tg in a.targets:
+                    if isinstance(tg, ast.Name) and tg.id == e.id:
+                        defs.append(a.value)
+                    elif isinstance(tg, ast.Tuple) and any(isinstance(x, ast.Name) and x.id == e.id for x in tg.elts):
+                        return False
+            elif isinstance(a, (ast.For, ast.comprehension)) and any(isinstance(x, ast.Name) and x.id == e.id for x in ast.walk(a.target)):
+                return False
+            elif isinstance(a, ast.AugAssign) and isinstance(a.target, ast.Name) and a.target.id == e.id:
+                return False
+        if not defs:
+            return False
+        for d in defs:
+            if isinstance(d, ast.List) and not d.elts:
+                # an accumulator list: every element appended / extended must be sanitised itself
+                for c in f.walk():
+                    if isinstance(c, ast.Call) and isinstance(c.func, ast.Attribute) and ws(unparse(c.func.value)) == e.id:
+                        if c.func.attr in ('append', 'extend', 'insert'):
+                            if not sanitised(f, c.args[-1], depth + 1):
+                                return False
+                        elif c.func.attr not in ('pop', 'remove', 'clear', 'sort', 'reverse', 'index', 'count'):
+                            return False
+            elif not sanitised(f, d, depth + 1):
+                return False
+        return True
+    return False
+
+
 def limit_guards(ctx, L):
     """Every growing mutator has a limit guard that is true exactly when max_len > 0 and the new length > max_len."""
     cont = ctx.py.mod('prophy.container')
